@@ -13,6 +13,9 @@ func main() {
 		"gen":   func(a []string) int { return RunGen(gens, a) },
 		"probe": probe,
 		"c03":   c03,
+		"c14":   c14,
+		"c10":   c10,
+		"c17":   c17,
 	})
 }
 
